@@ -11,6 +11,7 @@ mod rec_csc;
 mod rec_equil;
 mod rec_json;
 mod rec_chordal;
+mod rec_consist;
 mod replay_qdldl;
 mod replay_presolve;
 mod replay_update;
@@ -127,6 +128,19 @@ fn main() {
             write_lines(&out, &lines);
             std::fs::write(args.get("meta", "meta.json"), meta.to_string()).unwrap();
             println!("{}", meta);
+        }
+        "consist" => {
+            let (lines, cases, meta) = rec_consist::record(args.num("seed", 1), args.num("count", 60) as usize);
+            write_lines(&args.get("out", "consist.ndjson"), &lines);
+            write_lines(&args.get("cases", "consist.cases.ndjson"), &cases);
+            std::fs::write(args.get("meta", "meta.json"), meta.to_string()).unwrap();
+            println!("{}", meta);
+        }
+        "consist-replay" => {
+            let v = load_case(&args);
+            let p: problem::Problem = serde_json::from_value(v["problem"].clone()).unwrap();
+            let (lines, _, _) = rec_consist::record_one(v["run"].as_u64().unwrap_or(0) as usize, &p, 12345);
+            write_lines(&args.get("out", "consist.ndjson"), &lines);
         }
         "csc" => {
             let (lines, meta) = rec_csc::record(args.num("seed", 1), args.get("tier", "quick") == "thorough");
